@@ -386,27 +386,55 @@ def aligned_specs():
                     t += 1
                 blocks[which]["al"] = al
                 out.append(scen.spec_of(blocks))
+    # modules whose alignment table exists but is empty (or absent): only a patch brings a requirement in
+    for kinds in (("c", "c", "c"), ("c", "d", "c")):
+        for table in ("empty", "absent"):
+            blocks = []
+            for j, k in enumerate(kinds):
+                nm = scen.NAMES[j]
+                blocks.append(scen.code_block(nm, [10 * (j + 1)] + ([11] if j == 1 else []), ["ret"] if j == 2 else None, f="f", e=(j == 0)) if k == "c" else scen.data_block(nm, [0xD0 + j, 0xE0 + j, 0xF0 + j]))
+            sp = scen.spec_of(blocks)
+            sp["alignment_table"] = table
+            out.append(sp)
     return out
 
 
 P_ORD = [["p", 0]]
 P_ALIGN = [["p", 0], ["raw", ".align 8"], ["p", 0]]
+P_ALIGN_HEAD = [["raw", ".align 8"], ["p", 0]]
+
+
+def _align_at(mods):
+    """where the `.align` directives of the patches sit: 'block-start' when each one opens a patch inserted at offset 0 of a
+    block (the new block then opens its interval, the case join_byte_intervals handles), else 'inside'"""
+    head = True
+    for m in mods:
+        if m["op"] in ("ins", "rep") and isinstance(m["p"], list) and any(t[0] == "raw" for t in m["p"]):
+            if not (m["p"][0][0] == "raw" and all(t[0] != "raw" for t in m["p"][1:]) and m["k"] == 0 and m["op"] == "ins"):
+                head = False
+    return "block-start" if head else "inside"
 
 
 def check_alignment(spec, mods):
     from ..world.run import exc_diff, is_documented_refusal
 
-    w, exc = Lg.rewrite(spec, mods)
+    def prep(w_):
+        if spec.get("alignment_table") == "absent":
+            w_.m.aux_data.pop("alignment", None)
+        elif spec.get("alignment_table") == "empty" and w_.m.aux_data["alignment"].data:
+            raise AssertionError("harness: alignment table expected to be empty")
+
+    w, exc = Lg.rewrite(spec, mods, prepare=prep)
     if exc is not None:
         return "raised", [exc_diff(spec, mods, exc)]
     diffs = []
-    al = w.m.aux_data["alignment"].data
+    al = w.m.aux_data["alignment"].data if "alignment" in w.m.aux_data else {}
     aligned_pos = set()
     for node, a in al.items():
         if isinstance(node, gtirb.ByteBlock) and node.module is w.m:
             patch_added = node not in w.blocks.values()
             if node.address % a:
-                diffs.append(C.D("aligned-block-misaligned", r_block="patch-added" if patch_added else "original", alignment=a, address=node.address))
+                diffs.append(C.D("aligned-block-misaligned", r_block="patch-added" if patch_added else "original", r_align_at=_align_at(mods) if patch_added else "-", alignment=a, address=node.address))
     # bytes: model bytes + only whole-nop / zero padding directly in front of aligned blocks
     mods_m = [m for m in mods]
     for m in mods_m:
@@ -451,6 +479,8 @@ def align_atoms(spec):
                 out.append({"op": "ins", "b": b["n"], "k": k, "p": P_ORD if b["k"] == "c" else {"bytes": [0]}})
                 if b["k"] == "c" and k in (0, n):
                     out.append({"op": "ins", "b": b["n"], "k": k, "p": P_ALIGN})
+                if b["k"] == "c" and k == 0:
+                    out.append({"op": "ins", "b": b["n"], "k": k, "p": P_ALIGN_HEAD})
             for k in range(n):
                 out.append({"op": "del", "b": b["n"], "k": k, "n": 1})
             if n > 1:
